@@ -504,6 +504,23 @@ def c08_scope(res, pid, rng, tier):
                 fails.append({"kind": "equal secrets received different replacements", "salt": cfg.salt, "secret": s, "line": ln, "output": out,
                               "replacement_now": canon, "replacement_before": lit[key]})
             lit.setdefault(key, canon)
+        # a second anonymizer with the same salt in the same process: a line it shares with the first run, at another position
+        sh = ["Zs%sq%d" % (re.sub(r"[^A-Za-z0-9]", "k", L.gen_secret(rng, "text")), i_) for i_ in range(4)]
+        run1 = ["username a password 0 %s\n" % sh[0], "username b password 0 %s\n" % sh[1]]
+        run2 = ["username b password 0 %s\n" % sh[1], "username c password 0 %s\n" % sh[2], "username d password 0 %s\n" % sh[3],
+                "username b password 0 %s\n" % sh[1]]
+        try:
+            run_lines(cfg, run1)
+            o_2, _ = run_lines(fa.FaCfg(salt=cfg.salt, pwd=True), run2)
+        except Exception as e:  # noqa
+            fails.append({"kind": "anonymize_io raised", "exc": repr(e), "salt": cfg.salt})
+            o_2 = []
+        if o_2:
+            res.evaluations += len(run2)
+            reps = [o_.split(" ")[-1].strip() for o_ in o_2]
+            if len(set(reps[:3])) != 3 or reps[0] != reps[3]:
+                fails.append({"kind": "different secrets received the same replacement" if len(set(reps[:3])) != 3 else "equal secrets received different replacements",
+                              "salt": cfg.salt, "earlier_run_in_this_process_same_salt": run1, "lines": run2, "outputs": o_2})
         # quoted secrets that contain an escaped quote, next to the same text unquoted and to a sibling that differs behind the quote
         q1, q2 = 'pq%d\\"cd' % rng.randint(10, 99), None
         q2 = q1[:-2] + "ef"
